@@ -905,6 +905,19 @@ func (n *TxNotifier) UpdateConfDetails(confRequest ConfRequest,
 	// Cache the details found in the rescan and attempt to dispatch any
 	// notifications that have not yet been delivered.
 	confSet.details = details
+
+	// Track the request for reorgs at the set level: the cached details are
+	// handed to future registrations even if no client is registered right
+	// now, so they must be cleared if their block is disconnected.
+	if details.BlockHeight+n.reorgSafetyLimit > n.currentHeight {
+		txSet, exists := n.confsByInitialHeight[details.BlockHeight]
+		if !exists {
+			txSet = make(map[ConfRequest]struct{})
+			n.confsByInitialHeight[details.BlockHeight] = txSet
+		}
+		txSet[confRequest] = struct{}{}
+	}
+
 	for _, ntfn := range confSet.ntfns {
 		// The default notification we assigned above includes the
 		// block along with the rest of the details. However not all
@@ -1374,6 +1387,18 @@ func (n *TxNotifier) updateSpendDetails(spendRequest SpendRequest,
 		"request %v", details.SpendingHeight, spendRequest)
 
 	spendSet.details = details
+
+	// Track the request for reorgs at the set level (see UpdateConfDetails).
+	spendHeight := uint32(details.SpendingHeight)
+	if spendHeight+n.reorgSafetyLimit > n.currentHeight {
+		opSet, exists := n.spendsByHeight[spendHeight]
+		if !exists {
+			opSet = make(map[SpendRequest]struct{})
+			n.spendsByHeight[spendHeight] = opSet
+		}
+		opSet[spendRequest] = struct{}{}
+	}
+
 	for _, ntfn := range spendSet.ntfns {
 		err := n.dispatchSpendDetails(ntfn, spendSet.details)
 		if err != nil {
